@@ -23,16 +23,23 @@ META = {
                   'unchanged updates (omit_unchanged_within 0 / longer than the history; the default 0.1 s lies in between) and for any '
                   'pending-error flags at start: struct_members_agree (struct[m] = member m after every operation; every layout: '
                   'read_/write_<struct> both, one of them or none, own read_/write_<m> for any members; any oracle outcome of the driver '
-                  'bodies incl. SECoP errors and arbitrary exceptions at any member position of a struct access), floatenum_consistent '
+                  'bodies incl. SECoP errors and arbitrary exceptions at any member position of a struct access) + '
+                  'struct_update_recovers_members (error states: from any state, an operation that returned and announced a value of the '
+                  'struct leaves no member in error state, whether or not the member value changed; …_overlapped: the same for accesses '
+                  'overlapping with assignments of other threads), floatenum_consistent '
                   '(value = valuedict[index] after every operation; a write hands the driver an index whose value no other label is closer '
                   'to; a driver-side assignment to the float leaves such an index, however close the assigned value is to the current one) '
                   '+ closest_first_minimum (tie rule of min()) + labels_wellformed / floatenum_consistent_of_labels (the hypotheses about '
                   'valuedict are facts about every label list FloatEnumParam.__init__ accepts), limits_enforced (for every class layout of '
                   'the limit parameters and of programmer-written check_<p> methods along the MRO: an accepted write is inside every limit '
                   'parameter current at that moment whenever the automatic check applies - in particular an inherited check_<p> never '
-                  'switches it off; an inverted limits pair is refused and changes nothing) + limits_enforced_plain, single_controller (per '
-                  'output, any wiring of inputs to several outputs) + takeover_switches_off + outputs_independent + '
-                  'controlled_by_names_active.  Struct parameters also under OVERLAPPING operations of several threads '
+                  'switches it off; an inverted limits pair is refused and changes nothing; for a parameter declared readonly in the '
+                  'class, made writable by the configuration or not, written by a client or by the driver calling write_<p>()) + '
+                  'limits_enforced_plain, single_controller (per output, any wiring of inputs to several outputs; with ANY outcome of '
+                  'the drivers\' set_control_active during every operation - returns, raises before or after marking the module: also '
+                  'after a take-over that failed half-way at most one input is marked and the output names it) + takeover_switches_off '
+                  '(for operations that returned) + outputs_independent + controlled_by_names_active (no direct deactivate_control and '
+                  'no failed operation on that output).  Struct parameters also under OVERLAPPING operations of several threads '
                   '(struct_members_agree_overlapped: a generated read_/write_<struct> of the member-wise layout or a generated member method '
                   'of the combined layout with any assignments of other threads to the struct or to members before each of its steps, any '
                   'values seen by cache reads outside updateLock; the per-thread guard counter of fix 8a147a3 is what it rests on - '
@@ -46,14 +53,21 @@ META = {
     'level_note': 'Trusted: Lean kernel + axioms propext/Classical.choice/Quot.sound; values are exact rationals (integers over a common '
                   'denominator) - binary64 subtraction/comparison is assumed to agree on the generated values; driver method bodies and '
                   'programmer-written check_<p> methods are scripted oracles (value / None / True / SECoP error / ValueError, KeyError, '
-                  'ZeroDivisionError); the conversion of a label text to a number is an oracle (taken from the class itself).',
+                  'ZeroDivisionError), so are the set_control_active methods of controllers (return / raise before / raise after '
+                  'super().set_control_active); the conversion of a label text to a number is an oracle (taken from the class itself).',
     'trusted': [
         'float distance comparison: abs(vdict[i] - x) compared in binary64 agrees with the exact rational comparison on the generated '
         'values (dyadic values and one-ulp / 2^-k neighbours of label values are exact; otherwise the generator keeps x away from near-ties)',
         'FloatRange.validate tolerance band (values outside the range by less than the resolution are clamped) is not modelled; the '
         'generator keeps out-of-range values clearly outside (at every scale)',
         'driver glue: which clause applies to a control operation (take-over by input k / by the output / none) is read off the '
-        'operation and the flags recorded before it; which check_<p> returned True is recorded by the scripted check methods',
+        'operation and the flags recorded before it; the stronger reading (named => marked) is expected of an output until the first '
+        'direct deactivate_control of one of its inputs or the first operation on it that did not return; which check_<p> returned True '
+        'is recorded by the scripted check methods',
+        'error states of struct members: "a value of the struct was announced during the operation" is read off the update messages '
+        'the connection received; "in error state" = readerror set or never announced (the flag the omission of updates consults); for '
+        'overlapping operations the theorem covers every overlapped access (struct_update_recovers_members_overlapped), the monitor '
+        'applies the clause to the sequential prefix / tail operations of a run only (the record that joins the threads is not one operation)',
         'the two extremes of omit_unchanged_within (0 and 10^6 s) stand for every timing under the default window',
         'overlapping operations: vlib.sched switches threads only at lock / send primitives (and, for a tree whose guard counter is a '
         'plain integer, between its load and its store); what runs under updateLock is atomic for every other thread taking that lock; '
@@ -69,7 +83,11 @@ META = {
         'StructOf / FloatRange / EnumType / LimitsType validation of well-formed values',
     ],
     'assumptions': [
-        'user-written read_/write_/check_ bodies are oracles: they return a value of the datatype, None (True), or raise',
+        'user-written read_/write_/check_ bodies are oracles: they return a value of the datatype, None (True), or raise; a '
+        'set_control_active override marks the module through super() (it returns only after doing so) or raises',
+        'error states of a struct parameter and its members are not linked beyond the recovery clause: an error announced for the struct '
+        'is not propagated to the members nor vice versa (the callbacks do not get along with the extra error argument; by design of '
+        'announceUpdate their exception is swallowed), so a valid struct next to a member in error state is reachable (failed read_<m>)',
         'control_active and controlled_by are changed only through the mixin methods (they are readonly for clients)',
         'float/enum pairs, limits and control hand-over: sequential histories (one request or driver call at a time); struct parameters: '
         'also accesses overlapping with driver-side assignments of other threads (accesses exclude each other through accessLock); '
@@ -800,8 +818,21 @@ def wire_struct(case, trace):
 
 
 def judge_struct_req(case, trace):
-    return {'p': 'C18', 'k': 'judge_struct', 'members': case['members'],
-            'trace': [[t['struct'], t['mem']] for t in trace]}
+    """values and error states of every record.  'announced': a value update of the struct was sent during the operation;
+    'flagged': the members in error state (or never announced) after it.  The record that joins the threads of an overlapping
+    phase is not one operation: no claim about error states there"""
+    members = case['members']
+    joined = len(case['pre']) + 1 if case['kind'] == 'structconc' else None
+    return {'p': 'C18', 'k': 'judge_struct', 'members': members,
+            'trace': [[t['struct'], t['mem'],
+                       {'ok': bool(t['ok']), 'announced': i != joined and any(e[0] == 'struct' for e in t['evs']),
+                        'flagged': [m for m, p in zip(members, t['mP']) if p]}] for i, t in enumerate(trace)]}
+
+
+def annotate(trace, answer):
+    """the clause each rejected record breaks, as the Lean monitor reports it (for signature and report)"""
+    for i, clause in answer.get('clauses', []):
+        trace[i]['clause'] = clause
 
 
 def gen_struct(rng, big, layout=None, n=None):
@@ -1306,6 +1337,13 @@ def limits_case(case):
     return dict(case, layers=[[case['has_min'], case['has_max'], case['has_limits'], False, False]], wlayer=0, ops=ops)
 
 
+def limits_ro(case):
+    """per class (MRO order): the readonly property its body gives <p> (None: nothing; the class declaring <p> always sets it)"""
+    ro = list(case.get('ro') or [None] * len(case['layers']))
+    ro[-1] = bool(ro[-1])
+    return ro
+
+
 def build_limits_class(case, cur):
     """the class hierarchy of the case.  case['layers'] = the classes in MRO order (most derived first), each
     [declares <p>_min, declares <p>_max, declares <p>_limits, defines check_<p>, is a plain mixin]; the last one declares <p>"""
@@ -1314,6 +1352,7 @@ def build_limits_class(case, cur):
     p = case['pname']
     layers = case['layers']
     n = len(layers)
+    ro = limits_ro(case)
     lo, hi = case['lo'] / LSCALE, case['hi'] / LSCALE
     dt = IntRange(int(lo), int(hi)) if case['int'] else FloatRange(lo, hi)
 
@@ -1339,9 +1378,11 @@ def build_limits_class(case, cur):
         dmin, dmax, dlim, own, _ = layers[i]
         ns = {}
         if i == n - 1:
-            ns[p] = Parameter('base', dt, readonly=False, default=case['value0'] / LSCALE)
+            ns[p] = Parameter('base', dt, readonly=bool(ro[i]), default=case['value0'] / LSCALE)
             if p == 'target':
                 ns['value'] = Parameter('value', dt, default=case['value0'] / LSCALE)
+        elif ro[i] is not None:
+            ns[p] = Parameter(readonly=ro[i])      # a subclass overrides the property of the inherited parameter
         for post, decl in (('min', dmin), ('max', dmax), ('limits', dlim)):
             if decl:
                 ns[f'{p}_{post}'] = Limit()
@@ -1366,9 +1407,12 @@ def build_limits_class(case, cur):
 def impl_limits(case):
     cur = {}
     cls = build_limits_class(case, cur)
-    node, conn = new_node({'m': {'cls': cls, 'description': 'x'}}, case.get('omit', False))
-    mod = node.modules['m']
     p = case['pname']
+    mcfg = {'cls': cls, 'description': 'x'}
+    if case.get('ro_cfg') is not None:
+        mcfg[p] = {'readonly': case['ro_cfg']}     # the configuration makes <p> writable (or readonly) for clients
+    node, conn = new_node({'m': mcfg}, case.get('omit', False))
+    mod = node.modules['m']
 
     def ex(n):      # exported name (predefined accessibles and their limits have no underscore)
         return mod.parameters[n].export if n in mod.parameters else '?' + n
@@ -1447,7 +1491,7 @@ def impl_limits(case):
 
 
 def wire_layers(case):
-    return [layer[:4] for layer in case['layers']]
+    return [layer[:4] + [r] for layer, r in zip(case['layers'], limits_ro(case))]
 
 
 def limits_numbers(case, trace):
@@ -1489,11 +1533,11 @@ def wire_limits(case, trace):
     ops = []
     for op in case['ops']:
         if op[0] == 'write':
-            ops.append(['write', lsc(den, op[1]), op[2], lsc(den, op[3])])
+            ops.append(['write', lsc(den, op[1]), op[2], lsc(den, op[3]), op[-1] == 'req'])
         else:
             ops.append([op[0]] + [lsc(den, v) for v in op[1:-1]])
     return {'p': 'C18', 'k': 'limits', 'lo': lsc(den, case['lo']), 'hi': lsc(den, case['hi']), 'layers': wire_layers(case),
-            'hasW': case['hasW'], 'omit': bool(case.get('omit')), 'errs0': trace[0]['errs'],
+            'hasW': case['hasW'], 'omit': bool(case.get('omit')), 'errs0': trace[0]['errs'], 'roCfg': case.get('ro_cfg'),
             'value0': lsc(den, case['value0']), 'ops': ops}
 
 
@@ -1568,6 +1612,22 @@ def gen_limits(rng, big):
             if rng.random() < 0.1:
                 layers[rng.randrange(ncls)][k] = True
     wlayer = rng.choice([i for i in range(ncls) if not layers[i][4]])
+    # who may write <p>: declared readonly in the class (then only the driver writes it: `self.write_<p>(x)`) unless the
+    # configuration makes it writable for clients; now and then a subclass overrides the property, or the configuration
+    # takes the access away.  The limits bind whoever writes.
+    ro = [None] * ncls
+    ro[-1] = rng.random() < 0.35
+    for i in range(ncls - 1):
+        if not layers[i][4] and rng.random() < 0.12:
+            ro[i] = rng.random() < 0.5
+    declared_ro = next(r for r in ro if r is not None)
+    ro_cfg = None
+    if declared_ro:
+        if rng.random() < 0.55:
+            ro_cfg = False
+    elif rng.random() < 0.06:
+        ro_cfg = True
+    client_ok = not (declared_ro if ro_cfg is None else ro_cfg)
 
     def checks():
         return [rng.choice(['pass'] * 8 + [fail_tag(rng), 'stop']) if layer[3] else 'pass' for layer in layers]
@@ -1577,6 +1637,8 @@ def gen_limits(rng, big):
         via = rng.choice(['req', 'call'])
         r = rng.random()
         if r < 0.45:
+            if not client_ok and rng.random() < 0.8:
+                via = 'call'       # readonly for clients: mostly the driver writes
             x = anyval()
             w = rng.choice(['none', 'none', x, fail_tag(rng), inside()])
             ops.append(['write', x, checks(), w, via])
@@ -1611,7 +1673,8 @@ def gen_limits(rng, big):
             x = anyval()
             ops.append(['write', x, checks(), 'none', via])
     return {'kind': 'limits', 'int': is_int, 'lo': lo, 'hi': hi, 'pname': pname, 'has_min': has['min'], 'has_max': has['max'],
-            'has_limits': has['limits'], 'layers': layers, 'wlayer': wlayer, 'hasW': hasW, 'value0': value0, 'ops': ops}
+            'has_limits': has['limits'], 'layers': layers, 'wlayer': wlayer, 'hasW': hasW, 'value0': value0, 'ro': ro,
+            'ro_cfg': ro_cfg, 'ops': ops}
 
 
 def sig_limits(case, bad, trace):
@@ -1634,7 +1697,7 @@ def sig_limits(case, bad, trace):
 # ----------------------------------------------------------------------------------------
 # controllers of one output
 # ----------------------------------------------------------------------------------------
-def build_control_classes(case):
+def build_control_classes(case, cur=None):
     from frappy.core import FloatRange, Parameter, Writable, Drivable
     from frappy.mixins import HasControlledBy, HasOutputModule
     base = Drivable if case['drivable'] else Writable
@@ -1652,6 +1715,15 @@ def build_control_classes(case):
         target = Parameter('t', FloatRange(), default=0)
         value = Parameter('v', FloatRange(), default=0)
 
+        def set_control_active(self, active):
+            """the driver's method "for switching hw control": scripted to raise before or after the module is marked"""
+            fault = (cur or {}).get('faults', {}).pop((self.name, bool(active)), None)
+            if fault and fault[0] == 'before':
+                raise_kind(fault[1])
+            super().set_control_active(active)
+            if fault and fault[0] == 'after':
+                raise_kind(fault[1])
+
         def write_target(self, value):
             if not (guarded and self.control_active):
                 self.activate_control()
@@ -1660,9 +1732,19 @@ def build_control_classes(case):
     return Out, In
 
 
+def control_faults(op):
+    """the scripted outcomes of the set_control_active calls during one operation: [[input, active, 'before' | 'after', exception], …]"""
+    return op[-2] if len(op) >= 3 and isinstance(op[-2], list) else []
+
+
+def control_plain(op):
+    return op[:-2] if len(op) >= 3 and isinstance(op[-2], list) else op[:-1]
+
+
 def impl_control(case):
     """several outputs in one node, input k attached to output case['outs'][k]"""
-    Out, In = build_control_classes(case)
+    cur = {}
+    Out, In = build_control_classes(case, cur)
     outs_of = case['outs']
     n, nout = len(outs_of), case['nout']
     cfg = {}
@@ -1700,6 +1782,9 @@ def impl_control(case):
     for op in case['ops']:
         kind, via = op[0], op[-1]
         ok = True
+        cur['faults'] = {}
+        for i, active, how, exc in control_faults(op):
+            cur['faults'].setdefault((f'in{i}', bool(active)), (how, exc))     # the first entry for a call counts
         try:
             if kind == 'writeIn':
                 if via == 'req':
@@ -1723,6 +1808,7 @@ def impl_control(case):
                 raise ValueError(kind)
         except Exception:
             ok = False
+        cur.clear()
         trace.append(snapshot(ok))
     return trace
 
@@ -1730,10 +1816,8 @@ def impl_control(case):
 def wire_control_ops(case):
     ops = []
     for op in case['ops']:
-        if op[0] == 'writeIn':
-            ops.append(['writeIn', op[1], case['guarded']])
-        else:
-            ops.append(op[:-1])
+        plain = ['writeIn', op[1], case['guarded']] if op[0] == 'writeIn' else control_plain(op)
+        ops.append({'op': plain, 'faults': [[i, bool(active), how] for i, active, how, _ in control_faults(op)]})
     return ops
 
 
@@ -1748,23 +1832,45 @@ def gen_control(rng, big):
     rng.shuffle(outs)
     n = len(outs)
     ops = []
+    # 35 % of the histories with faults: the drivers' set_control_active ("to be overridden for switching hw control") raises
+    # during some of the operations, before or after the module is marked.  `ctl` = who would control each output if nothing
+    # failed: half of the faults are aimed at the previous controller of a take-over, the others fall anywhere
+    faulty = rng.random() < 0.35
+    ctl = [None] * nout
+
+    def faults(op):
+        if not faulty or rng.random() < 0.6:
+            return []
+        res = []
+        o = outs[op[1]] if op[0] in ('writeIn', 'activate', 'deactivate') else op[1]
+        if ctl[o] is not None and rng.random() < 0.5:
+            res.append([ctl[o], False, rng.choice(['before', 'after']), fail_tag(rng)])
+        while not res or rng.random() < 0.25:
+            res.append([rng.randrange(n), rng.random() < 0.4, rng.choice(['before', 'after']), fail_tag(rng)])
+        return [e for j, e in enumerate(res) if e[:2] not in [x[:2] for x in res[:j]]]
+
     for _ in range(rng.randint(1, 30 if big else 12)):
         via = rng.choice(['req', 'call'])
         r = rng.random()
         k = rng.randrange(n)
         o = rng.randrange(nout)
         if r < 0.4:
-            ops.append(['writeIn', k, via])
+            op = ['writeIn', k]
         elif r < 0.55:
-            ops.append(['writeOut', o, via])
+            op = ['writeOut', o]
         elif r < 0.7:
-            ops.append(['activate', k, 'drv'])
+            op, via = ['activate', k], 'drv'
         elif r < 0.78:
-            ops.append(['deactivate', k, 'drv'])
+            op, via = ['deactivate', k], 'drv'
         elif r < 0.88:
-            ops.append(['selfControlled', o, 'drv'])
+            op, via = ['selfControlled', o], 'drv'
         else:
-            ops.append(['updateTarget', o, k, 'drv'])
+            op, via = ['updateTarget', o, k], 'drv'
+        ops.append(op + [faults(op), via])
+        if op[0] in ('writeIn', 'activate'):
+            ctl[outs[k]] = k
+        elif op[0] in ('writeOut', 'selfControlled'):
+            ctl[o] = None
     return {'kind': 'control', 'nout': nout, 'outs': outs, 'guarded': rng.random() < 0.6, 'drivable': rng.random() < 0.4,
             'ops': ops}
 
@@ -1801,7 +1907,7 @@ def prepare(case):
         return trace, {'p': 'C18', 'k': 'control', 'nout': case['nout'], 'outs': case['outs'], 'omit': bool(case.get('omit')),
                        'cbP0': trace[0]['cbP'], 'actP0': trace[0]['actP'], 'ops': ops}, \
             {'p': 'C18', 'k': 'judge_control', 'nout': case['nout'], 'outs': case['outs'], 'ops': ops,
-             'trace': [{'cb': t['cb'], 'act': t['act']} for t in trace]}, trace
+             'trace': [{'cb': t['cb'], 'act': t['act'], 'ok': t['ok']} for t in trace]}, trace
     raise ValueError(kind)
 
 
@@ -1877,17 +1983,16 @@ def conc_compare(case, trace, info, answer):
 
 def signature(case, bad, trace):
     kind = case['kind']
-    if kind == 'struct':
-        return sig_struct(case, bad)
-    if kind == 'structconc':
-        return sig_struct_conc(case, bad)
+    if kind in ('struct', 'structconc'):
+        sig = sig_struct(case, bad) if kind == 'struct' else sig_struct_conc(case, bad)
+        return sig + (':member-left-in-error-state' if trace[bad].get('clause') == 'member-left-in-error-state' else '')
     if kind == 'floatenum':
         return sig_floatenum(case, bad, trace)
     if kind == 'limits':
         return sig_limits(case, bad, trace)
     if bad == 0:
         return 'C18:control:initial'
-    return 'C18:control:' + case['ops'][bad - 1][0]
+    return 'C18:control:' + case['ops'][bad - 1][0] + ('' if trace[bad]['ok'] else ':operation-failed-half-way')
 
 
 def linked_values(case, t):
@@ -1920,6 +2025,7 @@ def judged_sigs(ctx, case):
     a = ctx.driver.batch([judge])[0]
     if 'driver_error' in a:
         raise RuntimeError(a['driver_error'])
+    annotate(trace, a)
     res = {}
     for i in new_bads(case, trace, a['bads']):
         res.setdefault(signature(case, i, trace), i)
@@ -1941,7 +2047,8 @@ def nontrivial(case, trace):
         rej = any(t['write'] is not None and not t['ok'] for t in trace)
         moved = len({json.dumps(t['after']) for t in trace}) >= 2
         return acc and rej and moved
-    return len({json.dumps([t['cb'], t['act']]) for t in trace}) >= 3 and fails == 0
+    return len({json.dumps([t['cb'], t['act']]) for t in trace}) >= 3 and \
+        (fails == 0 or any(control_faults(op) for op in case['ops']))
 
 
 SAMPLES_PER_KIND = {'struct': 2, 'floatenum': 1, 'limits': 1, 'control': 2, 'labels': 1}
@@ -2069,6 +2176,7 @@ def _run_conc(ctx, res, corpus, big):
         kinds = {op[0] for prog in case['progs'] for op in prog}
         if len(kinds) >= 2 and info['preemptions'] > 0 and len({json.dumps(t['struct']) for t in trace}) >= 2:
             res.nontriv({k: v for k, v in case.items() if k != 'ops'})
+        annotate(trace, judge)
         for bad in new_bads(case, trace, judge['bads']):
             sig = signature(case, bad, trace)
             npre = len(case['pre'])
@@ -2137,12 +2245,27 @@ def _run_chunk(ctx, res, cases, offset, ncorpus, shrunk):
         if kind == 'labels':
             res.count('labels.accepted' if trace[0]['ok'] else 'labels.refused')
             res.count(f'labels.n-{len(case["labels"])}')
+        if kind == 'control':
+            if any(control_faults(op) for op in case['ops']):
+                res.count('control.histories-with-failing-set_control_active')
+            for op, t in zip(case['ops'], trace[1:]):
+                if control_faults(op):
+                    res.count('control.op-with-scripted-fault-' + ('returned' if t['ok'] else 'failed-half-way'))
         if kind == 'limits':
             lay = limits_case(case)['layers']
             res.count(f'limits.classes-{len(lay)}')
             res.count('limits.with-check-method' if any(x[3] for x in lay) else 'limits.no-check-method')
             if any(x[4] for x in lay):
                 res.count('limits.with-mixin')
+            ro_ = limits_ro(limits_case(case))
+            declared = next(r for r in ro_ if r is not None)
+            res.count('limits.declared-' + ('readonly' if declared else 'writable') + {None: '', False: '-cfg-makes-writable',
+                                                                                      True: '-cfg-makes-readonly'}[case.get('ro_cfg')])
+            if any(r is not None for r in ro_[:-1]):
+                res.count('limits.readonly-overridden-in-subclass')
+            for op, t in zip(case['ops'], trace[1:]):
+                if op[0] == 'write' and declared:
+                    res.count(f'limits.write-of-declared-readonly-via-{op[-1]}-' + ('accepted' if t['ok'] else 'refused'))
             for t in trace[1:]:
                 if t['stopAt'] is not None:
                     res.count('limits.check-returned-true')
@@ -2162,6 +2285,7 @@ def _run_chunk(ctx, res, cases, offset, ncorpus, shrunk):
             if d is not None and len(res.disagreements) < 20:
                 res.disagreements.append({'case': case, 'at': d, 'model': mo[d] if d < len(mo) else None,
                                           'impl': io[d] if d < len(io) else None})
+        annotate(trace, judge)
         for bad in new_bads(case, trace, judge['bads']):
             sig = signature(case, bad, trace)
             if sig in {v['sig'] for v in res.violations if v['case'] is case}:
@@ -2179,7 +2303,8 @@ def _run_chunk(ctx, res, cases, offset, ncorpus, shrunk):
                 else:
                     sbad = sigs[sig]
                 layout = f' (all values x {LSCALE}; classes in MRO order, [min, max, limits declared, own check method, mixin]: ' \
-                         f'{json.dumps(limits_case(small)["layers"])})' if kind == 'limits' else ''
+                         f'{json.dumps(limits_case(small)["layers"])}, readonly set by the classes: {json.dumps(limits_ro(limits_case(small)))}, ' \
+                         f'by the configuration: {json.dumps(small.get("ro_cfg"))})' if kind == 'limits' else ''
                 what = f'{kind}{layout}: after {json.dumps(small["ops"][:sbad])} the recorded values are ' \
                        f'{json.dumps({k: v for k, v in strace[sbad].items() if k != "evs"})}'
                 res.violations.append({'sig': sig, 'what': what, 'case': small,
@@ -2204,6 +2329,7 @@ def replay(ctx, rp):
         print('       impl  :', json.dumps(io[i]))
         print('       model :', json.dumps(mo[i]) if isinstance(mo, list) and i < len(mo) else mo)
     print('judge :', a[1])
+    annotate(trace, a[1])
     bads = new_bads(case, trace, a[1].get('bads', []))
     for i in bads:
         print(f'rejected record [{i}]:', signature(case, i, trace))
